@@ -250,6 +250,18 @@ def make_compose_stubs():
                upd=bool(update_params))
             return self
 
+    class NoUpdateTag(_SeriesToSeriesTransformer):
+        """Like Tag but, as log / Box-Cox transformers, without an update method."""
+        _tags = {"transform-returns-same-time-index": True, "univariate-only": True}
+
+        def __init__(self, k=4):
+            self.k = k
+            super(NoUpdateTag, self).__init__()
+
+        fit = Tag.fit
+        transform = Tag.transform
+        inverse_transform = Tag.inverse_transform
+
     class SkipTag(Tag):
         _tags = {"transform-returns-same-time-index": True, "univariate-only": True,
                  "skip-inverse-transform": True}
@@ -269,4 +281,4 @@ def make_compose_stubs():
                x=[[int(round(v)) for v in r] for r in e["X"]], y=[])
             return np.full(len(e["X"]), 100100.0)   # constant token: applying the composite stays pure
 
-    return Leaf, Tag, SkipTag, MetaRegressor
+    return Leaf, Tag, SkipTag, MetaRegressor, NoUpdateTag
